@@ -113,7 +113,7 @@ func applyReal(m *rig.Machine, e event) {
 }
 
 func run(c *rig.Ctx) {
-	c.Require("transitions", "states", "probes_both_selected_with_button_held", "opposite_direction_presses")
+	c.Require("transitions", "states", "probes_both_selected_with_button_held", "opposite_direction_presses", "sequence_cases")
 	events := allEvents()
 	// BFS over the reference from power-on. The real controller powers on with both select
 	// bits reading 0 (JOYP = CF), which is the reference state sel=00.
@@ -188,6 +188,39 @@ func run(c *rig.Ctx) {
 		}
 	})
 	c.MarkExhaustive("reachable controller states x all 272 events")
+
+	// The breadth-first part reaches every state by one shortest path. A controller with hidden
+	// state (something that is not a function of select bits and held buttons) could behave
+	// differently along other paths, so all button-event sequences up to a bounded length are
+	// run as well, with a select write and a probe after every event.
+	L := int(c.N(4, 5))
+	nseq := int64(1)
+	for k := 0; k < L; k++ {
+		nseq *= 16
+	}
+	c.Part("sequences", nseq, func(i int64, r *rig.Rng) {
+		m := rig.MustNew(rom, rig.Opts{})
+		cur := jstate{}
+		x := i
+		var hist []string
+		for k := 0; k < L; k++ {
+			e := events[x%16] // the first 16 events are the press/release events
+			x /= 16
+			applyReal(m, e)
+			cur = cur.apply(e)
+			hist = append(hist, e.String())
+			sel := uint8(r.Intn(4)) << 4
+			m.Mem.Write(0xff00, sel|r.U8()&0xcf)
+			cur.sel = sel
+			if got := m.Mem.Read(0xff00); got != cur.read() {
+				c.Violate("sequence-"+classOf(cur), fmt.Sprintf("after %v with select %02X: JOYP=%02X want %02X", hist, sel, got, cur.read()), map[string]any{"events": fmt.Sprint(hist)})
+				return
+			}
+		}
+		c.Exact(1)
+		c.Count("sequence_cases", 1)
+	})
+	c.MarkExhaustive(fmt.Sprintf("all press/release sequences of length %d from power-on", L))
 	c.Count("reference_states", 0)
 	if c.Shard == 0 {
 		c.Count("reference_states_total", int64(len(order)))
